@@ -4,7 +4,7 @@ use swiftness_air::{domains::StarkDomains, layout::LayoutTrait, public_memory::P
 use swiftness_commitment::table::commit::table_commit;
 use swiftness_fri::fri::fri_commit;
 use swiftness_pow::pow;
-use swiftness_transcript::transcript::Transcript;
+use swiftness_transcript::{ensure, transcript::Transcript};
 
 // STARK commitment phase.
 pub fn stark_commit<Layout: LayoutTrait>(
@@ -48,6 +48,19 @@ pub fn stark_commit<Layout: LayoutTrait>(
     let oods_alpha = transcript.random_felt_to_prover();
     let oods_coefficients =
         powers_array(Felt::ONE, oods_alpha, (Layout::MASK_SIZE + Layout::CONSTRAINT_DEGREE) as u32);
+
+    // fri_commit indexes the layer commitments by n_layers and asserts the last layer length,
+    // so lengths that do not match the configuration are rejected here.
+    ensure!(
+        Felt::from(unsent_commitment.fri.inner_layers.len() + 1) == config.fri.n_layers
+            && unsent_commitment.fri.inner_layers.len() == config.fri.inner_layers.len(),
+        Error::FriCommitmentLength
+    );
+    ensure!(
+        Felt::from(unsent_commitment.fri.last_layer_coefficients.len())
+            == Felt::TWO.pow_felt(&config.fri.log_last_layer_degree_bound),
+        Error::FriCommitmentLength
+    );
 
     // Read fri commitment.
     let fri_commitment = fri_commit(transcript, unsent_commitment.fri.clone(), config.fri.clone());
@@ -95,6 +108,8 @@ pub enum Error {
 
     #[error("OodsVerifyError Error")]
     Oods(#[from] oods::OodsVerifyError),
+    #[error("fri commitment lengths do not match the configuration")]
+    FriCommitmentLength,
 }
 
 #[cfg(not(feature = "std"))]
@@ -108,4 +123,6 @@ pub enum Error {
 
     #[error("OodsVerifyError Error")]
     Oods(#[from] oods::OodsVerifyError),
+    #[error("fri commitment lengths do not match the configuration")]
+    FriCommitmentLength,
 }
